@@ -16,7 +16,10 @@ def path_count(tables, m, memo=None):
     (no table, or an empty Decay block) is stable"""
     memo = {} if memo is None else memo
     if m in memo:
+        if memo[m] is None:
+            raise ValueError(f"the tables are cyclic at {m}")
         return memo[m]
+    memo[m] = None      # being counted
     total = 0
     for fs in tables[m]:
         prod = 1
@@ -67,7 +70,16 @@ def run(ctx):
     def one(p, wire, text, m, label):
         case = {"kind": "expand", "label": label, "text": text if len(text) < 3000 else None, "mother": m}
         tabs = tables_of(p)
-        n = path_count(tabs, m)
+        try:
+            n = path_count(tabs, m)
+        except ValueError as e:
+            # the generated and selected inputs are acyclic: tables with a cycle are not the tables the text states
+            if label == "shipped":
+                res.skipped += 1
+                return
+            res.violation(f"the decay tables reported for an acyclic text are cyclic ({e})", case, clause="each choice once")
+            res.case()
+            return
         if n > bound:
             res.skipped += 1
             return
@@ -153,6 +165,39 @@ def run(ctx):
             continue
         for m in p.list_decay_mother_names():
             one(p, wire, text, m, "generated")
+        if i % 5 == 2:
+            # comments holding characters that some line-splitting routines cut at, followed by what would be a decay line: a
+            # comment ends at the line feed only, the choices are those of the plain text (string and file input)
+            odd = ["\x0c", "\x0b", "\x1c", "\x1d", "\x1e", "\x85", "\u2028", "\u2029"]
+            out_, inside = [], False
+            for ln in text.split("\n"):
+                out_.append(ln)
+                if ln.startswith("Decay "):
+                    inside = True
+                elif ln.startswith("Enddecay"):
+                    inside = False
+                if inside and rng.random() < 0.5:
+                    out_.append("  # the previous tune had instead:" + rng.choice(odd) + "0.3000 zz_q1 zz_q2 PHSP;")
+            t_odd = "\n".join(out_)
+            try:
+                if i % 2:
+                    p_odd = DecFileParser.from_string(t_odd)
+                else:
+                    import os
+                    import tempfile
+
+                    with tempfile.TemporaryDirectory(prefix="verif_c10_") as td_:
+                        with open(os.path.join(td_, "odd.dec"), "w", encoding="utf-8", newline="") as f_:
+                            f_.write(t_odd)
+                        p_odd = DecFileParser(os.path.join(td_, "odd.dec"))
+                p_odd.parse()
+            except Exception as e:
+                p_odd = None
+                res.violation(f"a text with unusual characters inside comments is refused: {type(e).__name__}", {"kind": "expand", "label": "odd-comment-characters", "text": t_odd}, clause="expansion")
+            if p_odd is not None:
+                for m in p.list_decay_mother_names():
+                    one(p_odd, wire, t_odd, m, "odd-comment-characters")
+                res.count("odd_comment_texts")
         if i % 3 == 0:
             # a table set differing in a few values (a dropped or doubled line, exchanged daughters), then the previous one again
             d2 = gen.sibling_doc(rng, doc, structure=False)
